@@ -26,16 +26,17 @@ mod child;
 #[path = "c05/gen.rs"]
 mod gen;
 
-use child::{CaseResult, ChildCase, Job, Rep};
+use child::{CaseResult, ChildCase, Job, Rep, RetainCfg};
 use gen::{GenStats, SrcFile, Step, Tapes};
 
 pub fn info() -> PropertyInfo {
     PropertyInfo {
         id: "C05",
         level: "exploration",
-        rule: "evaluation = a BATCH of 3 different ST projects (generated: 1-4 files, up to 14 TYPEs incl. inline arrays, 10 functions, 4 interfaces, 12 classes/FBs with methods, inheritance and nested instances, 6 programs, 22 globals, tasks, AT bindings, retain variables, namespaces; or project directories / single files of /repo), each with a trace of 2-6 cycles (clock steps, direct-input and global writes); every project is compiled twice and run twice in each of K>=3 separately started OS processes (different environment size, pre-spawned threads, allocation pre-amble) and every process works through the batch in its own order (as listed / reversed / rotated; one process per three runs each project on a thread of its own, the others the whole batch on one thread), so each project is observed as the first thing a process does and behind one or two unrelated projects; non-trivial = at least two projects of the batch compile with >= 3 POUs and >= 20 interned strings and traces of >= 2 cycles; distinct by SHA-256 of all sources + traces",
+        rule: "evaluation = a BATCH of 3 different ST projects (generated: 1-4 files, up to 14 TYPEs incl. inline arrays, 10 functions, 4 interfaces, 12 classes/FBs with methods, inheritance and nested instances, 6 programs, 22 globals, tasks, AT bindings, retain variables, namespaces; or project directories / single files of /repo), each with a trace of 2-6 cycles (clock steps, direct-input and global writes), ~2 in 3 with a retain store attached (logging in-memory or FileRetainStore, save interval none/0/1 ms/500 ms/10 s of simulated time; after the trace a fresh runtime loads the store without a final save) and source paths absent / relative / mixed / absolute (files on disk, bundle builder run as well); every project is compiled twice and run twice in each of K>=3 separately started OS processes (different environment size, pre-spawned threads, allocation pre-amble, cwd, TZ, LANG/LC_ALL, HOME, TMPDIR, USER, argv[0], umask, stdin; the last one replays retain traces with real delays between cycles) and every process works through the batch in its own order (as listed / reversed / rotated; one process per three runs each project on a thread of its own, the others the whole batch on one thread), so each project is observed as the first thing a process does and behind one or two unrelated projects; non-trivial = at least two projects of the batch compile with >= 3 POUs and >= 20 interned strings and traces of >= 2 cycles; distinct by SHA-256 of all sources + traces",
         assumptions: &[
-            "one machine: differences that need another CPU/endianness/libm are out of reach",
+            "one machine: differences that need another CPU/endianness/libm are out of reach; pid ranges, rlimits, uid and filesystem type are the same in all children",
+            "replay speed is varied (real delays between cycles) only for the 1 ms and 500 ms retain save intervals; the delays are inputs, no wall-clock value is used as an oracle",
             "process history is varied by what the same process compiled/ran before (1-2 other projects of the batch, same thread or earlier threads); longer histories and other API calls before a compilation are not explored",
             "the runtime is driven through CompileSession::build_runtime + Runtime::{advance_time, execute_cycle, io_mut().write, storage_mut().set_global} (what TestHarness does, plus source paths)",
             "the `time` field of every RuntimeEvent is the simulation clock (read in runtime/cycle.rs, core.rs apply_fault) and is compared; RuntimeMetrics (wall-clock durations, only recorded when a metrics sink is installed) are diagnostics, not program state, and are not compared",
@@ -56,7 +57,7 @@ pub fn helper(args: &[String]) -> Option<i32> {
         Some("c05-try") => Some(try_main(args)),
         Some("c05-compile") => {
             let files: Vec<SrcFile> = args[1..].iter().map(|p| SrcFile { path: None, text: std::fs::read_to_string(p).unwrap_or_default() }).collect();
-            let r = child::run_case_dev(&ChildCase { files, trace: vec![Step { dt_ns: 10_000_000, writes: vec![] }, Step { dt_ns: 10_000_000, writes: vec![] }] }, true);
+            let r = child::run_case_dev(&ChildCase { files, trace: vec![Step { dt_ns: 10_000_000, writes: vec![] }, Step { dt_ns: 10_000_000, writes: vec![] }], retain: None, bundle_sources: None }, true);
             println!("{} {}", r.reps[0].stbc, r.reps[0].full.as_ref().map(|f| f.compile_error.clone()).unwrap_or_default());
             println!("faults: {:?}", r.reps[0].full.as_ref().map(|f| f.faults.clone()));
             Some(0)
@@ -72,6 +73,9 @@ pub struct Case {
     pub trace: Vec<Step>,
     #[serde(default)]
     pub stats: Option<GenStats>,
+    /// retain store attached while the trace runs (None = no store)
+    #[serde(default)]
+    pub retain: Option<RetainCfg>,
     /// true for cases drawn by the strategy in this run, false for replay files (serde
     /// default) - the shrink budget below must never be started by a failing replay
     #[serde(skip)]
@@ -79,8 +83,19 @@ pub struct Case {
 }
 
 impl Case {
-    fn child(&self) -> ChildCase {
-        ChildCase { files: self.files.clone(), trace: self.trace.clone() }
+    /// The case as a child sees it: `@ABS@` in source paths replaced by `abs_root`.
+    fn child(&self, abs_root: &str) -> ChildCase {
+        let absolute = self.files.iter().any(|f| f.path.as_deref().map(|p| p.starts_with(gen::ABS_PREFIX)).unwrap_or(false));
+        ChildCase {
+            files: self
+                .files
+                .iter()
+                .map(|f| SrcFile { path: f.path.as_ref().map(|p| p.replacen(gen::ABS_PREFIX, abs_root, 1)), text: f.text.clone() })
+                .collect(),
+            trace: self.trace.clone(),
+            retain: self.retain.clone(),
+            bundle_sources: if absolute && self.files.iter().all(|f| f.path.is_some()) { Some(abs_root.to_string()) } else { None },
+        }
     }
     fn key(&self) -> Vec<u8> {
         let mut k = Vec::new();
@@ -169,7 +184,8 @@ fn tapes_strategy() -> impl Strategy<Value = Tapes> {
 fn gen_case_strategy() -> impl Strategy<Value = Case> {
     tapes_strategy().prop_map(|t| {
         let g = gen::generate(&t);
-        Case { origin: "generated".into(), files: g.files, trace: g.trace, stats: Some(g.stats), fresh: true }
+        let retain = g.retain.map(|(interval_ns, file)| RetainCfg { interval_ns, file });
+        Case { origin: "generated".into(), files: g.files, trace: g.trace, stats: Some(g.stats), retain, fresh: true }
     })
 }
 
@@ -229,14 +245,31 @@ fn corpus_projects() -> Vec<Project> {
     out
 }
 
-fn corpus_case(p: &Project, steps: &[Tape], with_paths: bool) -> Case {
+fn corpus_case(p: &Project, steps: &[Tape], path_mode: u8, retain_sel: u8) -> Case {
     use crate::engine::tape::Reader;
     use gen::{Lit, Write};
     let files = p
         .files
         .iter()
-        .map(|(path, text)| SrcFile { path: if with_paths { Some(path.clone()) } else { None }, text: text.clone() })
+        .enumerate()
+        .map(|(k, (path, text))| SrcFile {
+            path: match path_mode % 3 {
+                0 => None,
+                1 => Some(path.clone()),
+                _ => {
+                    let base = path.rsplit('/').next().unwrap_or("f.st");
+                    Some(format!("{}/src/u{k:02}_{base}", gen::ABS_PREFIX))
+                }
+            },
+            text: text.clone(),
+        })
         .collect();
+    let retain = match retain_sel % 5 {
+        0 | 1 => None,
+        2 => Some(RetainCfg { interval_ns: Some(0), file: false }),
+        3 => Some(RetainCfg { interval_ns: Some(1_000_000), file: false }),
+        _ => Some(RetainCfg { interval_ns: Some(1_000_000), file: true }),
+    };
     let mut trace = Vec::new();
     for t in steps {
         let mut r = Reader::new(t);
@@ -252,14 +285,17 @@ fn corpus_case(p: &Project, steps: &[Tape], with_paths: bool) -> Case {
         }
         trace.push(Step { dt_ns: dt, writes });
     }
-    Case { origin: format!("corpus:{}", p.name), files, trace, stats: None, fresh: false }
+    Case { origin: format!("corpus:{}", p.name), files, trace, stats: None, retain, fresh: false }
 }
 
 #[derive(Clone, Debug, Serialize, Deserialize)]
 pub struct CorpusPick {
     pub project: usize,
     pub steps: Vec<Tape>,
-    pub with_paths: bool,
+    /// 0 no paths, 1 repository-relative paths, 2 absolute paths under the batch scratch dir
+    pub path_mode: u8,
+    /// retain store selector (see corpus_case)
+    pub retain_sel: u8,
     #[serde(skip)]
     pub fresh: bool,
 }
@@ -279,6 +315,52 @@ fn infra(msg: String) {
 struct Children {
     k: usize,
     job_path: std::path::PathBuf,
+    /// `<out>/C05/w<worker>`: `abs/b<j>/src` = sources of project j on disk, `amb/c<i>/...` =
+    /// cwd / HOME / TMPDIR / scratch of child i
+    work: std::path::PathBuf,
+}
+
+/// Ambient process state of child `i`: everything a process inherits and a deterministic
+/// toolchain must not let into its output.
+struct Ambient {
+    cwd: std::path::PathBuf,
+    env: Vec<(&'static str, String)>,
+    arg0: String,
+    umask: u32,
+    /// 0 = /dev/null, 1 = open pipe, 2 = closed
+    stdin: u8,
+}
+
+fn ambient(ch: &Children, i: usize, abs_roots: &[String]) -> Ambient {
+    let dir = ch.work.join("amb").join(format!("c{i}"));
+    let first_abs = abs_roots.first().cloned().unwrap_or_else(|| "/".into());
+    // child 0 works IN the directory the absolute source paths of project #0 live under, child 3
+    // in its src/ directory, child 1 in an unrelated scratch directory, child 2 in /
+    let cwd = match i % 6 {
+        0 => std::path::PathBuf::from(&first_abs),
+        1 => dir.join("cwd"),
+        2 => std::path::PathBuf::from("/"),
+        3 => std::path::Path::new(&first_abs).join("src"),
+        4 => std::env::temp_dir(),
+        _ => ch.work.clone(),
+    };
+    let tz = ["UTC", "America/New_York", "Asia/Kolkata", "Pacific/Chatham", "Europe/Berlin", "UTC"][i % 6];
+    let lang = ["C", "en_US.UTF-8", "de_DE.UTF-8", "tr_TR.UTF-8", "ja_JP.UTF-8", "POSIX"][i % 6];
+    Ambient {
+        cwd,
+        env: vec![
+            ("TZ", tz.to_string()),
+            ("LANG", lang.to_string()),
+            ("LC_ALL", lang.to_string()),
+            ("HOME", dir.join("home").display().to_string()),
+            ("TMPDIR", dir.join("tmp").display().to_string()),
+            ("USER", format!("plc{i}")),
+            ("LOGNAME", format!("plc{i}")),
+        ],
+        arg0: ["tpv", "/usr/local/bin/st-build", "c05-child", "./a.out", "trust-runtime", "x"][i % 6].to_string(),
+        umask: [0o022, 0o077, 0o000, 0o027, 0o002, 0o777][i % 6],
+        stdin: (i % 3) as u8,
+    }
 }
 
 /// Start K children on the job; each gets its own environment size, thread count and
@@ -304,7 +386,8 @@ fn child_separate_threads(i: usize) -> bool {
     i % 3 == 2
 }
 
-fn run_children(ch: &Children, cases: &[ChildCase], full: bool, pause: bool) -> Result<Vec<Vec<CaseResult>>, String> {
+fn run_children(ch: &Children, cases: &[ChildCase], abs_roots: &[String], full: bool, pause: bool) -> Result<Vec<Vec<CaseResult>>, String> {
+    use std::os::unix::process::CommandExt;
     let exe = std::env::current_exe().map_err(|e| format!("current_exe: {e}"))?;
     let mut procs = Vec::new();
     for i in 0..ch.k {
@@ -317,20 +400,42 @@ fn run_children(ch: &Children, cases: &[ChildCase], full: bool, pause: bool) -> 
             public_api: i == 0,
             order: child_order(i, cases.len()),
             separate_threads: child_separate_threads(i),
+            // the last child replays retain traces with real delays between the cycles
+            cycle_delays: i == ch.k - 1,
+            scratch: ch.work.join("amb").join(format!("c{i}")).join("scratch").display().to_string(),
         };
+        let amb = ambient(ch, i, abs_roots);
+        for d in ["cwd", "home", "tmp", "scratch"] {
+            let _ = std::fs::create_dir_all(ch.work.join("amb").join(format!("c{i}")).join(d));
+        }
         let path = ch.job_path.with_extension(format!("{i}.json"));
         std::fs::write(&path, serde_json::to_vec(&job).map_err(|e| e.to_string())?).map_err(|e| format!("write job: {e}"))?;
         let pad = "x".repeat(17 + i * 3001);
-        let child = Command::new(&exe)
+        let mut cmd = Command::new(&exe);
+        cmd.arg0(&amb.arg0)
             .arg("c05-worker")
             .arg(&path)
             .env("C05_PAD", pad)
             .env(format!("C05_EXTRA_{i}"), "1")
-            .stdin(Stdio::null())
+            .current_dir(if amb.cwd.is_dir() { amb.cwd.clone() } else { std::path::PathBuf::from("/") })
+            .stdin(if amb.stdin == 1 { Stdio::piped() } else { Stdio::null() })
             .stdout(Stdio::piped())
-            .stderr(Stdio::piped())
-            .spawn()
-            .map_err(|e| format!("spawn: {e}"))?;
+            .stderr(Stdio::piped());
+        for (k, v) in &amb.env {
+            cmd.env(k, v);
+        }
+        let (umask, close_stdin) = (amb.umask, amb.stdin == 2);
+        // SAFETY: only async-signal-safe libc calls between fork and exec
+        unsafe {
+            cmd.pre_exec(move || {
+                libc::umask(umask as libc::mode_t);
+                if close_stdin {
+                    libc::close(0);
+                }
+                Ok(())
+            });
+        }
+        let child = cmd.spawn().map_err(|e| format!("spawn: {e}"))?;
         procs.push(child);
     }
     let mut out = Vec::new();
@@ -414,6 +519,15 @@ fn first_difference(a: &Rep, b: &Rep) -> Option<String> {
     if a.events != b.events {
         return Some(format!("runtime event sequences differ ({} vs {} events)", a.event_count, b.event_count));
     }
+    if a.restored != b.restored {
+        return Some(format!(
+            "state restored from the retain store after a power loss differs (the store received {} vs {} images)",
+            a.stores, b.stores
+        ));
+    }
+    if !a.bundle.is_empty() && !b.bundle.is_empty() && a.bundle != b.bundle {
+        return Some("program.stbc written by bundle_builder::build_program_stbc differs".into());
+    }
     None
 }
 
@@ -456,7 +570,16 @@ fn full_diff(a: &Rep, b: &Rep) -> Option<String> {
     if let Some(d) = line_diff("fault list", &fa.faults, &fb.faults) {
         return Some(d);
     }
-    line_diff("runtime events", &fa.events, &fb.events)
+    if let Some(d) = line_diff("runtime events", &fa.events, &fb.events) {
+        return Some(d);
+    }
+    if let Some(d) = line_diff("state restored from the retain store", &fa.restored, &fb.restored) {
+        return Some(d);
+    }
+    if fa.bundle_error != fb.bundle_error {
+        return Some(format!("bundle builder: A: {} | B: {}", short(&fa.bundle_error), short(&fb.bundle_error)));
+    }
+    None
 }
 
 fn find_mismatch(results: &[Vec<CaseResult>], case_idx: usize) -> Option<(String, (usize, usize), (usize, usize))> {
@@ -488,6 +611,29 @@ fn classify(case: &Case, rep0: &Rep, probe: &mut Probe) -> bool {
     probe.label(format!("cycles={}", case.trace.len()));
     probe.label(if rep0.fault_count > 0 { "faults=some" } else { "faults=none" });
     probe.label(format!("sections={}", rep0.sections.len()));
+    probe.label(match &case.retain {
+        None => "retain_store=none".to_string(),
+        Some(c) => format!(
+            "retain_store={}{}",
+            match c.interval_ns {
+                None => "no_interval".to_string(),
+                Some(0) => "interval_0".to_string(),
+                Some(n) if n % 1_000_000_000 == 0 => format!("interval_{}s", n / 1_000_000_000),
+                Some(n) => format!("interval_{}ms", n / 1_000_000),
+            },
+            if c.file { ",file" } else { ",memory" }
+        ),
+    });
+    if case.retain.is_some() {
+        probe.label(format!("retain_images_stored={}", bucket(rep0.stores)));
+    }
+    let abs = case.files.iter().any(|f| f.path.as_deref().map(|p| p.starts_with(gen::ABS_PREFIX)).unwrap_or(false));
+    let some = case.files.iter().any(|f| f.path.is_some());
+    let all = case.files.iter().all(|f| f.path.is_some());
+    probe.label(format!("source_paths={}", if abs { "absolute" } else if all { "relative" } else if some { "mixed" } else { "none" }));
+    if !rep0.bundle.is_empty() {
+        probe.label(if rep0.bundle.len() == 64 { "bundle_builder=ok" } else { "bundle_builder=rejected" });
+    }
     if let Some(s) = &case.stats {
         probe.label(if s.configuration { "config=yes" } else { "config=no" });
         probe.label(format!("tasks={}", s.tasks.min(5)));
@@ -503,13 +649,17 @@ fn classify(case: &Case, rep0: &Rep, probe: &mut Probe) -> bool {
 }
 
 fn history(k: usize, n: usize, case_idx: usize, process: usize) -> String {
-    let _ = k;
     let order = child_order(process, n);
     let pos = order.iter().position(|x| *x == case_idx).unwrap_or(0);
     let before: Vec<String> = order[..pos].iter().map(|x| format!("#{x}")).collect();
     format!(
-        "process {process} ({}, order {:?}: project #{case_idx} ran {})",
+        "process {process} ({}{}, order {:?}: project #{case_idx} ran {})",
         if child_separate_threads(process) { "one thread per project" } else { "whole batch on one thread" },
+        format!(
+            "{}, cwd {}",
+            if process + 1 == k { ", retain traces replayed with real delays between cycles" } else { "" },
+            ["= directory above project #0's absolute sources", "= unrelated scratch directory", "= /", "= src/ of project #0's absolute sources", "= temp dir", "= work dir"][process % 6]
+        ),
         order,
         if before.is_empty() { "first".to_string() } else { format!("after {}", before.join(", ")) }
     )
@@ -519,7 +669,21 @@ fn check_batch(ch: &Children, cases: &[Case], probe: &mut Probe) -> Result<(), S
     if cases.is_empty() {
         return Ok(());
     }
-    let ccs: Vec<ChildCase> = cases.iter().map(|c| c.child()).collect();
+    // per-batch scratch: project j's absolute source paths live under <work>/abs/b<j>/src and
+    // the files are really there (the bundle builder reads them from disk)
+    let _ = std::fs::remove_dir_all(ch.work.join("abs"));
+    let abs_roots: Vec<String> = (0..cases.len()).map(|j| ch.work.join("abs").join(format!("b{j}")).display().to_string()).collect();
+    let ccs: Vec<ChildCase> = cases.iter().zip(abs_roots.iter()).map(|(c, r)| c.child(r)).collect();
+    for (cc, root) in ccs.iter().zip(abs_roots.iter()) {
+        let _ = std::fs::create_dir_all(std::path::Path::new(root).join("src"));
+        if cc.bundle_sources.is_some() {
+            for f in &cc.files {
+                if let Some(p) = &f.path {
+                    let _ = std::fs::write(p, &f.text);
+                }
+            }
+        }
+    }
     let mut key = Vec::new();
     for c in cases {
         key.extend_from_slice(&c.key());
@@ -531,11 +695,11 @@ fn check_batch(ch: &Children, cases: &[Case], probe: &mut Probe) -> Result<(), S
     if pause {
         probe.label("wall_clock_pause=1100ms");
     }
-    let results = match run_children(ch, &ccs, false, pause) {
+    let results = match run_children(ch, &ccs, &abs_roots, false, pause) {
         Ok(r) => r,
         Err(e) => {
             // a child that dies is only a C05 matter if the others do not: decide by re-running once
-            match run_children(ch, &ccs, false, pause) {
+            match run_children(ch, &ccs, &abs_roots, false, pause) {
                 Ok(_) => {
                     return Err(format!("process-dependent failure: a child process failed on this batch ({e}) and succeeded when started again"));
                 }
@@ -592,7 +756,7 @@ fn check_batch(ch: &Children, cases: &[Case], probe: &mut Probe) -> Result<(), S
                 history(ch.k, cases.len(), j, b.0)
             );
             // best effort: run again with the artefacts as text and show the first differing line
-            if let Ok(full) = run_children(ch, &ccs, true, pause) {
+            if let Ok(full) = run_children(ch, &ccs, &abs_roots, true, pause) {
                 let mut obs: Vec<&Rep> = Vec::new();
                 for r in &full {
                     for rep in &r[j].reps {
@@ -665,7 +829,11 @@ fn run(ctx: &mut RunCtx) {
     };
     let job_dir = verif_root().join("out").join("C05");
     let _ = std::fs::create_dir_all(&job_dir);
-    let ch = Children { k, job_path: job_dir.join(format!("job-w{}-{}", ctx.worker, std::process::id())) };
+    let job_dir = job_dir.canonicalize().unwrap_or(job_dir);
+    let work = job_dir.join(format!("w{}", ctx.worker));
+    let _ = std::fs::remove_dir_all(&work);
+    let _ = std::fs::create_dir_all(&work);
+    let ch = Children { k, job_path: job_dir.join(format!("job-w{}-{}", ctx.worker, std::process::id())), work };
 
     // generated batches: BATCH different projects per evaluation
     reset_budget();
@@ -676,8 +844,8 @@ fn run(ctx: &mut RunCtx) {
     ctx.note(format!("corpus: {} projects (directories with >= 2 .st files + every single .st file of /repo)", projects.len()));
     if !projects.is_empty() {
         let n = projects.len();
-        let pick = (0..n, proptest::collection::vec(words(8), 2..=4), any::<bool>())
-            .prop_map(|(i, steps, with_paths)| CorpusPick { project: i, steps, with_paths, fresh: true });
+        let pick = (0..n, proptest::collection::vec(words(8), 2..=4), 0u8..3, 0u8..5)
+            .prop_map(|(i, steps, path_mode, retain_sel)| CorpusPick { project: i, steps, path_mode, retain_sel, fresh: true });
         let strat = proptest::collection::vec(pick, BATCH).prop_map(|picks| CorpusBatch { picks, fresh: true });
         let projects_ref = &projects;
         reset_budget();
@@ -685,7 +853,7 @@ fn run(ctx: &mut RunCtx) {
             let cases: Vec<Case> = c
                 .picks
                 .iter()
-                .map(|k| corpus_case(&projects_ref[k.project.min(projects_ref.len() - 1)], &k.steps, k.with_paths))
+                .map(|k| corpus_case(&projects_ref[k.project.min(projects_ref.len() - 1)], &k.steps, k.path_mode, k.retain_sel))
                 .collect();
             budgeted(c.fresh, || check_batch(&ch, &cases, p))
         });
@@ -693,6 +861,7 @@ fn run(ctx: &mut RunCtx) {
     for i in 0..6 {
         let _ = std::fs::remove_file(ch.job_path.with_extension(format!("{i}.json")));
     }
+    let _ = std::fs::remove_dir_all(&ch.work);
     if let Ok(mut v) = INFRA.lock() {
         for m in v.drain(..) {
             ctx.inconclusive(m);
@@ -716,7 +885,7 @@ fn try_main(args: &[String]) -> i32 {
     for i in 0..n {
         let case = strat.new_tree(&mut runner).unwrap().current();
         let started = std::time::Instant::now();
-        let r = child::run_case_dev(&case.child(), std::env::var("C05_TRY_FAST").is_err());
+        let r = child::run_case_dev(&case.child("/nonexistent-abs"), std::env::var("C05_TRY_FAST").is_err());
         let rep = &r.reps[0];
         let bytes: usize = case.files.iter().map(|f| f.text.len()).sum();
         if rep.stbc.len() == 64 {
